@@ -88,3 +88,53 @@ def is_8bit(n):
 
 def is_tracked(n):
     return '_tr' in n or '_ntr' in n or '_mo' in n
+
+
+# ---------------------------------------------------------------- FlatSet configurations
+CMPS = {'less': 'std::less<%s >', 'greater': 'std::greater<%s >', 'coarse': 'vf::Coarse<%s >', 'stateful': 'vf::Stateful<%s >',
+        'transparent': 'vf::TLess<%s >'}
+SIBLING = {'less': 'greater', 'greater': 'less', 'coarse': 'less', 'stateful': 'less', 'transparent': 'greater'}
+
+
+def fs_vec(vk, E, A):
+    if vk == 'amcvec':
+        return 'amc::vector<%s,%s >' % (E, A), 200, 'false', 'false'
+    if vk == 'sv4':
+        return 'amc::SmallVector<%s,4,%s >' % (E, A), 200, 'false', 'false'
+    if vk == 'fcv24':
+        return 'amc::FixedCapacityVector<%s,24>' % E, 24, 'false', 'true'
+    if vk == 'stdvec':
+        return 'std::vector<%s,%s >' % (E, A), 200, 'true', 'false'
+    raise KeyError(vk)
+
+
+def flatset(cmp, vk, e, al):
+    E = ELEM[e]
+    A = 'amc::vec::EmptyAlloc' if vk == 'fcv24' else _al(al, E)
+    V, limit, isstd, isfcv = fs_vec(vk, E, A)
+    S = 'amc::FlatSet<%s,%s,%s,%s >' % (E, CMPS[cmp] % E, A, V)
+    S2 = 'amc::FlatSet<%s,%s,%s,%s >' % (E, CMPS[SIBLING[cmp]] % E, A, V)
+    return {'VF_S': S, 'VF_S2': S2, 'VF_LIMIT': str(limit), 'VF_IS_STD': isstd, 'VF_IS_FCV': isfcv}
+
+
+FS_CONFIGS = [
+    ('fs_less_amcvec_i32_amc', flatset('less', 'amcvec', 'i32', 'amc')),
+    ('fs_greater_sv4_i32_std', flatset('greater', 'sv4', 'i32', 'std')),
+    ('fs_coarse_fcv24_i32', flatset('coarse', 'fcv24', 'i32', 'std')),
+    ('fs_stateful_stdvec_i32_std', flatset('stateful', 'stdvec', 'i32', 'std')),
+    ('fs_transparent_amcvec_tr_re', flatset('transparent', 'amcvec', 'tr', 're')),
+    ('fs_less_sv4_ntr_std', flatset('less', 'sv4', 'ntr', 'std')),
+    ('fs_greater_fcv24_tr', flatset('greater', 'fcv24', 'tr', 'std')),
+    ('fs_coarse_stdvec_ntr_std', flatset('coarse', 'stdvec', 'ntr', 'std')),
+    ('fs_stateful_amcvec_ntr_amc', flatset('stateful', 'amcvec', 'ntr', 'amc')),
+    ('fs_transparent_sv4_i32_amc', flatset('transparent', 'sv4', 'i32', 'amc')),
+    ('fs_less_fcv24_ntr', flatset('less', 'fcv24', 'ntr', 'std')),
+    ('fs_greater_stdvec_tr_std', flatset('greater', 'stdvec', 'tr', 'std')),
+    ('fs_coarse_amcvec_tr_re', flatset('coarse', 'amcvec', 'tr', 're')),
+    ('fs_stateful_sv4_tr_re', flatset('stateful', 'sv4', 'tr', 're')),
+    ('fs_less_amcvec_mo_amc', flatset('less', 'amcvec', 'mo', 'amc')),
+    ('fs_stateful_sv4_mo_std', flatset('stateful', 'sv4', 'mo', 'std')),
+    ('fs_less_amcvec_tr_realamc', flatset('less', 'amcvec', 'tr', 'realamc')),
+]
+FS_DEFS = dict(FS_CONFIGS)
+FS_MULTISTD = ['fs_less_sv4_ntr_std', 'fs_stateful_amcvec_ntr_amc', 'fs_coarse_amcvec_tr_re']
